@@ -9,12 +9,13 @@ the listed checks. Prints a table and writes /verif/.work/scratch_eval.json.
 The scratch directory (/tmp/hmc-scratch-<pid>) and all build output in it are removed at the end."""
 import subprocess, sys, os, shutil, re, json, time
 args = sys.argv[1:]
-tier = 'quick'; keep = False; suite = True
+tier = 'quick'; keep = False; suite = True; outp = '/verif/.work/scratch_eval.json'
 while args and args[0].startswith('--'):
     a = args.pop(0)
     if a == '--tier': tier = args.pop(0)
     elif a == '--keep': keep = True
     elif a == '--no-suite': suite = False
+    elif a == '--out': outp = args.pop(0)
 jobs = []
 for a in args:
     name, rest = a.split('=', 1)
@@ -78,7 +79,7 @@ try:
         results[name] = res
 finally:
     os.makedirs('/verif/.work', exist_ok=True)
-    json.dump(results, open('/verif/.work/scratch_eval.json', 'w'), indent=1)
+    json.dump(results, open(outp, 'w'), indent=1)
     if not keep:
         sh(f"git -C /repo worktree remove --force {S}/repo")
         shutil.rmtree(S, ignore_errors=True)
